@@ -7,7 +7,8 @@ RULE = ("seeded sequences of tree operations rich in root Metadata (names overla
         "identical, empty on either side) and grafts with all five options / cuts with all three, at any point of the sequence; "
         "after every graft / cut the receiving root's metadata are compared with the documented table (keys, content, and object "
         "identity: shared vs. independent copy) computed from the snapshot before the operation, and the whole heap with the Lean "
-        "model; non-trivial = an operation with a conflicting entry name; distinct by recipe hash")
+        "model; every third sequence starts with a directed scenario (two roots with overlapping entry names incl. '', node-level "
+        "Metadata of such a name, a graft under an interior node with any option); non-trivial = an operation with a conflicting entry name; distinct by recipe hash")
 
 
 def cases(tier, seed):
